@@ -32,14 +32,15 @@ Ltac norm_accept :=
 
 (* ================================================================ DTLS 1.2 client *)
 
-Theorem client_accept_implies_checks_with :
-  forall bind c v, client12_with bind c v = Accept -> client_required c v = true.
+Theorem client_accept_implies_checks_gen :
+  forall bind c v, client12_gen true bind c v = Accept -> client_required c v = true.
 Proof.
-  intros bind [sk hvpc hvc pcb] [su cm cn cp ske sa sg ch nm tm ca vpc vc fa fv fk bl].
-  unfold client12_with, client12_flight3, client12_init_with, client12_fin, client12_vc, client_required, sv_x509_ok.
-  cbn [cc_skip_verify cc_has_vpc cc_has_vc cc_psk_cb sv_suite sv_cert_msg sv_certs_nonempty sv_cert_parses
+  intros bind [sk hvpc hvc pcb nip] [su cm cn cp ske sa sg ch nm tm ca vpc vc fa fv fk pne pkn bl].
+  unfold client12_gen, client12_flight3, client12_init_gen, client12_fin, client12_vc, client_required, sv_x509_ok,
+    sv_x509_code.
+  cbn [cc_skip_verify cc_has_vpc cc_has_vc cc_psk_cb cc_name_is_ip sv_suite sv_cert_msg sv_certs_nonempty sv_cert_parses
        sv_ske_msg sv_scheme_allowed sv_sig_valid sv_chain_ok sv_name_ok sv_time_ok sv_certalgs_ok sv_vpc_ok
-       sv_vc_ok sv_fin_arrives sv_fin_valid sv_scheme_fits_key sv_signed_by_leaf].
+       sv_vc_ok sv_fin_arrives sv_fin_valid sv_scheme_fits_key sv_signed_by_leaf sv_psk_nonempty sv_peer_knows_psk].
   intros H. apply andthen_accept in H. destruct H as [H3 H]. apply andthen_accept in H. destruct H as [Hi Hf].
   apply wait_unless_accept in Hf. destruct Hf as [Hfa Hfv]. apply check_accept in Hfv.
   apply wait_unless_accept in H3. destruct H3 as [Hske H3].
@@ -47,23 +48,34 @@ Proof.
     destruct pcb, cm, ske, fa; cbn in *; try discriminate;
     repeat match goal with H : _ = true |- _ => rewrite H end; try reflexivity;
     destruct sk, hvpc, hvc, sa, cn, cp, sg, bind, fk; cbn in *; try discriminate;
+    rewrite ?andb_false_r, ?orb_false_r in *;
     repeat match goal with H : _ = true |- _ => rewrite H end; reflexivity.
 Qed.
 
+(* the code as it stands (all switches) *)
+Lemma client12_inv :
+  forall c v, client12 c v = Accept ->
+    client12_psk_gate psk_refuses_empty_key c v = Accept /\
+    client12_gen client_verifies_ip_literal_name verify_binds_scheme_to_key c v = Accept.
+Proof. intros c v H. unfold client12, client12_all in H. apply andthen_accept in H. exact H. Qed.
+
 Theorem client_accept_implies_checks :
   forall c v, client12 c v = Accept -> client_required c v = true.
-Proof. intros c v. apply client_accept_implies_checks_with. Qed.
+Proof.
+  intros c v H. apply client12_inv in H. destruct H as [_ H]. revert H.
+  destruct client_verifies_ip_literal_name eqn:E; [apply client_accept_implies_checks_gen | discriminate E].
+Qed.
 
 (* F45: with the repaired verification the claimed scheme fits the key; under unforgeability the
    signature then really is by the leaf key over this handshake *)
 Theorem client_accept_binds_signature :
-  forall c v, sig_sound_s v -> client12_with true c v = Accept -> sv_suite v = SCert ->
+  forall c v, sig_sound_s v -> client12_gen true true c v = Accept -> sv_suite v = SCert ->
     sv_scheme_fits_key v = true /\ sv_signed_by_leaf v = true /\ client_credential c v = true.
 Proof.
   intros c v Hsound Ha Hs.
-  assert (Hr := client_accept_implies_checks_with true c v Ha).
-  unfold client12_with in Ha. apply andthen_accept in Ha. destruct Ha as [_ Ha].
-  apply andthen_accept in Ha. destruct Ha as [Ha _]. unfold client12_init_with in Ha. rewrite Hs in Ha.
+  assert (Hr := client_accept_implies_checks_gen true c v Ha).
+  unfold client12_gen in Ha. apply andthen_accept in Ha. destruct Ha as [_ Ha].
+  apply andthen_accept in Ha. destruct Ha as [Ha _]. unfold client12_init_gen in Ha. rewrite Hs in Ha.
   apply andthen_accept in Ha. destruct Ha as [_ Ha]. apply andthen_accept in Ha. destruct Ha as [Ha _].
   apply check_accept in Ha. cbn [negb orb] in Ha.
   apply andb_true_iff in Ha. destruct Ha as [Ha Hsig]. apply andb_true_iff in Ha. destruct Ha as [_ Hfit].
@@ -73,14 +85,15 @@ Qed.
 
 (* ... whereas the code before the repair accepted a signature forged from the victim's public key
    alone: ECDSA leaf, claimed scheme Ed25519 (no digest), chain and name genuinely valid *)
-Definition f45_ccfg : ccfg := mk_ccfg false false false false.
+Definition f45_ccfg : ccfg := mk_ccfg false false false false false.
 Definition f45_sview : sview :=
   mk_sview SCert true true true true true (* scheme in the allowed list *) true (* the ECDSA routine accepts *)
-           true true true true true true true true false (* scheme does not fit the key *) false (* not by the leaf key *).
+           true true true true true true true true false (* scheme does not fit the key *) true true
+           false (* not by the leaf key *).
 
 Theorem client_scheme_confusion_refuted :
   exists c v, sig_sound_s v /\ cc_skip_verify c = false /\ sv_suite v = SCert /\
-    client12_with false c v = Accept /\ sv_scheme_fits_key v = false /\ sv_signed_by_leaf v = false /\
+    client12_gen true false c v = Accept /\ sv_scheme_fits_key v = false /\ sv_signed_by_leaf v = false /\
     client_credential c v = false.
 Proof.
   exists f45_ccfg, f45_sview. repeat split; try reflexivity. intros H. discriminate H.
